@@ -393,10 +393,13 @@ def strategy(max_tasks=6):
             # parallel (a forced completion racing another branch is order
             # dependent by the language): a plain chain
             prog, outc = gen_chain(D, G)
-            plan = history.gen_plan(D, max_cmds=3, horizon=14,
-                                    kinds=('pause', 'resume', 'pause'))
-            if not plan:
-                plan = [{'at': D.int(0, 8), 'cmd': 'pause', 'sel': 0}]
+            # an early pause: the rest of the chain completes while paused
+            # (everything still paused is resumed at the end)
+            plan = [{'at': D.int(1, 10), 'cmd': 'pause', 'sel': 0}]
+            if D.bool(0.3):
+                plan += history.gen_plan(D, max_cmds=2, horizon=20,
+                                         kinds=('pause', 'resume'))
+                plan.sort(key=lambda c: c['at'])
             return {'prog': prog, 'outcomes': outc, 'input': {},
                     'sched': enginerun.gen_schedule(D, max_devs=3),
                     'salt': D.int(0, 20), 'plan': plan}
